@@ -324,8 +324,28 @@ def version_rules(analysis: Analysis, res: RuleResult) -> None:
     g = analysis.p.func("__init__:Gateway.__init__")
     gt = unparse(g.node)
     res.add("C18-R3", "__init__:Gateway.__init__ / the protocol version passes the sanitiser before it selects the tables", "protocol_version = safe_is_version(protocol_version)" in gt and "get_const(protocol_version)" in gt, common.where(analysis, g, g.node), "")
-    s = analysis.p.classes["sensor:Sensor"].props["protocol_version"]["set"]
-    res.add("C18-R3", "sensor:Sensor.protocol_version / a node's presented version passes the same sanitiser", "safe_is_version(value)" in unparse(s.node), common.where(analysis, s, s.node), "")
+    # evaluated, not read off the text: every path of the setter (an @setter method or a factory-built property)
+    # calls the sanitiser on the presented value before it stores, and never stores the raw value
+    ctx = analysis.context(analysis.versions[-1], "serial", "sync")
+    it = analysis.new_interp(ctx)
+    node_obj = Sym(("root", "S"), ("cls", "sensor:Sensor"))
+    raw = Sym(("root", "value"), None, nullable=True)
+    sq, snode, souts = common.setter_outs(analysis, it, it.new_state(), "sensor:Sensor", "protocol_version", node_obj, raw)
+    bad = None
+    n_paths = 0
+    for out in souts:
+        kind, s0, v0 = out
+        if kind != "val":
+            bad = bad or f"the setter raises {v0.cls.__name__}"
+            continue
+        n_paths += 1
+        stores = [i for i, e in enumerate(s0.events) if e.kind == "store" and isinstance(e.recv, V) and e.recv.key() == node_obj.key()]
+        san = [i for i, e in enumerate(s0.events) if e.kind in ("enter", "opaque") and e.name == "validation:safe_is_version" and e.args and isinstance(e.args[0], V) and e.args[0].key() == raw.key()]
+        if not stores or not san or min(san) > min(stores):
+            bad = bad or "a path stores the presented version without calling safe_is_version on it first"
+        elif any(isinstance(s0.events[i].args[0], V) and s0.events[i].args[0].key() == raw.key() for i in stores):
+            bad = bad or "the raw presented value is stored"
+    res.add("C18-R3", "sensor:Sensor.protocol_version / a node's presented version passes the same sanitiser", bad is None and n_paths > 0, "mysensors/sensor.py", f"{sq}: {n_paths} path(s), each stores the result of safe_is_version(value)" if bad is None else bad)
 
 
 def selector_worker(analysis: Analysis, _spec) -> dict:
